@@ -257,5 +257,90 @@ int main(int argc, char** argv) {
             }
         }
     }
+    // ---- plan objects outlive the thread that built them ("transform plan objects may be shared"): a plan is built (and used once)
+    // in a thread that then EXITS, other threads come and go (their TLS blocks and stacks reuse the memory), and the plan is used
+    // from the main thread and from new threads.  A plan that keeps a pointer into its builder's thread-local storage dangles here.
+    {
+        struct PK {
+            const char* name;
+            std::function<std::function<uint64_t()>()> build;   // builds the plan, returns a closure that solves with it
+        };
+        const std::vector<PK> kinds = {
+            {"FftPlan(8)", [] { auto p = std::make_shared<FftPlan>(8); return std::function<uint64_t()>([p] { return H(p->solve(cl(8, 41))); }); }},
+            {"FftPlan(24)", [] { auto p = std::make_shared<FftPlan>(24); return std::function<uint64_t()>([p] { return H(p->solve(cl(24, 42))); }); }},
+            {"FftPlan(60)", [] { auto p = std::make_shared<FftPlan>(60); return std::function<uint64_t()>([p] { return H(p->solve(cl(60, 43))); }); }},
+            {"FftPlan(53)", [] { auto p = std::make_shared<FftPlan>(53); return std::function<uint64_t()>([p] { return H(p->solve(cl(53, 44))); }); }},
+            {"FftPlan(1000)", [] { auto p = std::make_shared<FftPlan>(1000); return std::function<uint64_t()>([p] { return H(p->solve(cl(1000, 45))); }); }},
+            {"FftPlanR(16)", [] { auto p = std::make_shared<FftPlanR>(16); return std::function<uint64_t()>([p] { return H(p->solve(rl(16, 46))); }); }},
+            {"FftPlanR(30)", [] { auto p = std::make_shared<FftPlanR>(30); return std::function<uint64_t()>([p] { return H(p->solve(rl(30, 47))); }); }},
+            {"IfftPlan(12)", [] { auto p = std::make_shared<IfftPlan>(12); return std::function<uint64_t()>([p] { return H(p->solve(cl(12, 48))); }); }},
+            {"IfftPlanR(16)", [] { auto p = std::make_shared<IfftPlanR>(16); return std::function<uint64_t()>([p] { return H(p->solve(cl(9, 49))); }); }},
+            {"CztPlan(5,7)", [] { auto p = std::make_shared<CztPlan>(5, 7, expj(-2 * pi / 7), cmplx_t(1, 0)); return std::function<uint64_t()>([p] { return H(p->solve(cl(5, 50))); }); }},
+        };
+        // histories: which threads come and go between the builder's exit and the uses
+        const std::vector<std::vector<int>> between = {{}, {0}, {2}, {2, 0}, {3, 4, 2}};   // indices into PR (programs run by short-lived threads)
+        for (auto& k : kinds) {
+            // reference: built and used on the main thread of a fresh process
+            uint64_t ref = 0;
+            {
+                fb::Result r = fb::run([&] { auto use = k.build(); fb::emit(std::to_string(use()) + "\n"); }, 30.0);
+                if (r.kind != fb::RETURNED) {
+                    fprintf(stderr, "reference run of plan %s failed: %s\n", k.name, fb::kind_name(r.kind));
+                    return 4;
+                }
+                ref = strtoull(r.out.c_str(), nullptr, 10);
+            }
+            for (size_t bi = 0; bi < between.size(); ++bi) {
+                for (int user = 0; user < 3; ++user) {   // 0: main uses, 1: a new thread uses, 2: a new thread, then main
+                    std::string hist = "build in a thread that exits";
+                    for (int pi : between[bi]) hist += std::string("; S(") + PR[(size_t)pi].name + ")";
+                    hist += user == 0 ? "; main uses the plan" : (user == 1 ? "; a new thread uses the plan" : "; a new thread, then main use the plan");
+                    if (!ctx.take("thread.plan_outlives_builder", P().kv("plan", k.name).kv("history", hist))) continue;
+                    ctx.nontrivial();
+                    fb::Result r = fb::run(
+                        [&] {
+                            std::function<uint64_t()> use;
+                            uint64_t first = 0;
+                            std::thread b([&] {
+                                use = k.build();
+                                first = use();
+                            });
+                            b.join();
+                            for (int pi : between[bi]) {
+                                std::thread t([&] { run_ops(PR[(size_t)pi], 0, PR[(size_t)pi].ops.size()); });
+                                t.join();
+                            }
+                            std::string o = std::to_string(first) + "\n";
+                            if (user >= 1) {
+                                uint64_t v = 0;
+                                std::thread t([&] { v = use(); });
+                                t.join();
+                                o += std::to_string(v) + "\n";
+                            }
+                            if (user != 1) o += std::to_string(use()) + "\n";
+                            fb::emit(o);
+                        },
+                        30.0);
+                    P par;
+                    if (r.kind != fb::RETURNED) {
+                        ctx.fail("thread.plan", fmt("%s (signal %d) stderr: %s", fb::kind_name(r.kind), r.sig, r.err.substr(0, 300).c_str()),
+                                 "a plan object stays valid after the thread that built it has exited", par);
+                        continue;
+                    }
+                    std::istringstream in(r.out);
+                    uint64_t v;
+                    int idx = 0;
+                    while (in >> v) {
+                        if (v != ref) {
+                            ctx.fail("thread.plan", fmt("use #%d of the plan returns a different result than a plan built and used in a fresh single-threaded process", idx),
+                                     "bit-identical result", par);
+                            break;
+                        }
+                        ++idx;
+                    }
+                }
+            }
+        }
+    }
     return ctx.finish();
 }
